@@ -85,6 +85,14 @@ pub trait Obj: Any {
         "X".into()
     }
     fn as_any(&self) -> &dyn Any;
+    /// std::mem::swap of the structure held here with the one held by `o` (same concrete type): both objects stay
+    /// where they are in memory, their contents change places
+    fn swap_obj(&mut self, _o: &mut dyn Obj) -> bool {
+        false
+    }
+    fn as_any_mut(&mut self) -> Option<&mut dyn Any> {
+        None
+    }
     fn threads(&self, _k: usize, _op: &str, _a: &[u128]) -> String {
         "X".into()
     }
@@ -458,6 +466,18 @@ impl<X: TreeApi> Obj for TreeObj<X> {
     }
     fn as_any(&self) -> &dyn Any {
         self
+    }
+    fn as_any_mut(&mut self) -> Option<&mut dyn Any> {
+        Some(self)
+    }
+    fn swap_obj(&mut self, o: &mut dyn Obj) -> bool {
+        match o.as_any_mut().and_then(|a| a.downcast_mut::<TreeObj<X>>()) {
+            Some(x) => {
+                std::mem::swap(&mut self.t, &mut x.t);
+                true
+            }
+            None => false,
+        }
     }
     fn threads(&self, k: usize, op: &str, a: &[u128]) -> String {
         let base = self.q(op, a);
@@ -1208,6 +1228,14 @@ impl State {
                 }
                 None => "X".into(),
             },
+            "SWAP" => match (self.cur.as_mut(), self.slots.get_mut(t[1])) {
+                (Some(o), Some(sl)) => tf(o.swap_obj(&mut **sl)),
+                _ => "X".into(),
+            },
+            "DROP" => {
+                self.cur = None;
+                "OK".into()
+            }
             "EQ" => match (&self.cur, self.slots.get(t[1])) {
                 (Some(o), Some(s)) => match guard(|| match o.eq_obj(&**s) { Some(b) => tf(b), None => "X".into() }).as_str() {
                     x => x.to_string(),
